@@ -430,8 +430,20 @@ def repr_key_clash(w):
         return False
     return False
 
+_STATS = {}
+def _count(k):
+    _STATS[k] = _STATS.get(k, 0) + 1
+
 def oracle(fn, arg, out):
     """the property itself, on the implementation's outputs"""
+    m = _oracle(fn, arg, out)
+    if fn in (11, 12, 13, 15, 16):
+        _count('%s:%s' % (FUNCS[fn][0], 'fails' if m else 'judged' if _LAST[0] else 'outside the domain'))
+    return m
+
+_LAST = [False]
+def _oracle(fn, arg, out):
+    _LAST[0] = False
     if fn == 12:
         fmts, pc, w = [arg[0]], True, arg[1]
     elif fn == 13:
@@ -442,6 +454,7 @@ def oracle(fn, arg, out):
         return None
     if not in_domain(w, fmts if fn in (12, 13) else [0, 1, 2] if fn == 16 else []):
         return None
+    _LAST[0] = True
     if fn == 11:
         if out[0] != 0:
             return 'lower() raised on a database of the domain'
@@ -731,9 +744,22 @@ _XMLNAME = re.compile(r'[A-Za-z][A-Za-z0-9.\-]*\Z')
 def xml_safe_tree(x):
     tag, i, text, cs = x
     ok = lambda s: all((32 <= ord(c) < 127) or c == '\n' for c in s)
-    return bool(_XMLNAME.match(tag)) and all(ok(s) and '\n' not in s for s in i) and all(ok(s) for s in text) and all(xml_safe_tree(c) for c in cs)
+    # (an empty text cannot be told from no text in XML: [''] is not a tree the parser can return)
+    return bool(_XMLNAME.match(tag)) and all(ok(s) and '\n' not in s for s in i) and all(s and ok(s) for s in text) and all(xml_safe_tree(c) for c in cs)
+
+def xml_lib_ok(fn, arg):
+    """the XML library hypothesis covers element names that are XML names only: through FC02b a field
+    value can become an entry type (yaml before bibtexml in a chain)"""
+    if fn == 13 and 1 in arg[0] and 2 in arg[0]:
+        return all(_XMLNAME.match(v) for e in arg[2][0] for k, v in e[2] if k.lower() == 'type')
+    return True
 
 def gen(tier, rng):
+    for c in _gen(tier, rng):
+        if xml_lib_ok(c[1], c[2]):
+            yield c
+
+def _gen(tier, rng):
     quick = tier == 'quick'
     # ---- pinned: defects of DESIGN.md section 4 for C02, findings, every disagreement seen while building
     kn = parse_person('Donald E. Knuth')
@@ -873,6 +899,33 @@ def gen(tier, rng):
         if text:
             j = rng.randrange(len(text))
             yield ('bib_texts_damaged', 18, [text[:j] + rng.choice(['', '{', '}', '"', ',', '@', ' # ', '=']) + text[j + rng.randint(0, 1):]])
+
+def extra_checks(ck, tier, rng):
+    # how many round trips the oracle really judged (inputs inside the property's domain)
+    yield {'name': 'oracle_domain_counts', 'evaluations': sum(v for k, v in _STATS.items() if not k.endswith('outside the domain')),
+           'failures': [], 'info': dict(sorted(_STATS.items()))}
+    # library hypotheses, sampled directly: PyYAML and ElementTree reproduce string-leaf trees
+    import yaml
+    from xml.etree import ElementTree as ET
+    n = 0; fails = []
+    pool = VALUES + FIVE_VALUES + NAMES + KEYS + ['null', '1', 'true', '~', '- x', 'a: b', ' lead', 'trail ', '#c', "'", '""', '\\n', 'é', '\u00a0x', 'x\u2028y']
+    for v in pool:
+        t = {'entries': {'k': {'type': 'book', 'f': v}}, 'preamble': v or 'p'}
+        n += 1
+        try:
+            back = yaml.load(yaml.dump(t, allow_unicode=True, default_flow_style=False, sort_keys=False), Loader=yaml.SafeLoader)
+        except Exception as e:
+            back = repr(e)
+        if back != t:
+            fails.append(('yaml %r' % v, 'PyYAML load(dump(t)) != t: %r' % (back,), False))
+        if xml_ok(v) and '\r' not in v:
+            n += 1
+            el = ET.Element(NS + 'f'); el.text = v or None; el.set('id', 'K 1')
+            b = ET.fromstring(ET.tostring(el, encoding='unicode'))
+            if (b.text or '') != v or b.get('id') != 'K 1' or b.tag != NS + 'f':
+                fails.append(('xml %r' % v, 'ElementTree fromstring(tostring(e)) differs: %r' % (b.text,), False))
+    yield {'name': 'library_hypotheses_sample', 'evaluations': n, 'failures': fails[:5],
+           'info': 'PyYAML load(dump(t)) = t and ElementTree fromstring(tostring(e)) = e on the value / name / key pools'}
 
 RULE = ('pinned: the inputs of the findings (F18 five characters, FC02a role spelling, FC02b field "type", FC02c repr), the trailing-backslash tokens of DESIGN.md, empty databases; '
         'exhaustive: Writer.quote/check_braces on every string over {a { } " \\ space} up to the length bound; the LaTeX encoder on every string over {a ~ space # \\ {}; '
